@@ -6,7 +6,7 @@
 usage: regress.py [mutants|seeds|benign ...] [-j N] [--prop Cxx]"""
 import glob, json, os, shutil, subprocess, sys, time
 from concurrent.futures import ThreadPoolExecutor
-V = "/verif"
+V = __import__("os").path.dirname(__import__("os").path.dirname(__import__("os").path.abspath(__file__)))
 sys.path.insert(0, V + "/engine/rules")
 import selftest
 args = sys.argv[1:]
